@@ -641,7 +641,10 @@ class TaskHandler(PoolThread):
 
             # tell workers there is no more work
             debug('task handler sending sentinel to workers')
-            for p in pool:
+            # iterate over a copy: workers that already got their sentinel
+            # exit and are removed from the list by whoever reaps them
+            # (supervisor / result handler) while we are still sending.
+            for p in list(pool):
                 put(None)
         except IOError:
             debug('task handler got IOError when sending sentinels')
@@ -1696,7 +1699,8 @@ class Pool:
         # Terminate workers which haven't already finished
         if pool and hasattr(pool[0], 'terminate'):
             debug('terminating workers')
-            for p in pool:
+            # (copy: the result handler reaps exited workers concurrently)
+            for p in list(pool):
                 if p._is_alive():
                     p.terminate()
 
